@@ -79,8 +79,9 @@ def run_property(pid, spec, tier, seed, deadline=None):
         from concurrent.futures import ThreadPoolExecutor
         with ThreadPoolExecutor(4) as ex:
             exes = list(ex.map(lambda r: r.build(), runs))
+        t_runs = time.time()  # the tier's deadline budgets the exploration, not the (cached) builds that precede it
         for i, (r, exe) in enumerate(zip(runs, exes)):
-            remaining = total_deadline - (time.time() - t0)
+            remaining = total_deadline - (time.time() - t_runs)
             if remaining < 5:
                 results.append(dict(run=r.describe(), skipped=True, deadline_hit=1, executed=0, total_cases=0, failures=[], counters={}, samples=[], distinct_nontrivial=0))
                 continue
